@@ -34,6 +34,12 @@
   * `auth_choice_cases`          spelled out: MD5 if offered, else password if offered, else none if offered
   * `auth_choice_all_subsets`    the same, checked by evaluation for all 64 support bytes (32 subsets × reserved bit 3)
   * `auth_choice_asShipped_counterexample`  the pinned order (md5, md2, …) picks MD2 for {MD2, password}
+  * `auth_choice_none`           `get_max_auth_type` returns None exactly when the BMC offers none of the five types
+  * `auth_none_offered_no_request`  then (intended `noAuthRaises`) the handshake ends after the capabilities exchange:
+                                 no Get Session Challenge — for no type at all —, outcome NotSupportedError, BMC not
+                                 bothered; for any relaying peer losing ≤ max_retries datagrams per request
+  * `auth_none_offered_asShipped_counterexample`  the pinned tree asks for a challenge with type "none", which the BMC
+                                 did not offer: the reference BMC flags `auth-type-not-offered`
   sequence numbers, requests, close
   * `seq_step`                   `increment_sequence_number` = the specification's successor for all 32-bit values:
                                  +1, 0xFFFFFFFE ↦ 0xFFFFFFFF ↦ 1, never 0, stays 32-bit; the first value is inside
@@ -45,6 +51,19 @@
   * `close_names_sid`            the last datagram is Close Session for the granted id; the session object ends
                                  de-activated
   * `close_again_sends_nothing`  closing a de-activated session sends nothing
+  * `close_without_session_returns`  ANY peer (intended `closeGuard`): without a session object, or with one that is not
+                                 activated, close_session() sends nothing, returns, leaves the peer alone
+  * `close_after_failed_ping`    ANY peer: the ping fails (silence, not a pong) ⇒ the handshake fails and the clean-up
+                                 close sends nothing and returns
+  * `close_after_failed_open`    for every fault position (Get Channel Authentication Capabilities, Get Session Challenge,
+                                 Activate Session, Set Session Privilege Level), fault = silence for the whole retry budget
+                                 or an error completion code, any relaying peer: the handshake fails, the clean-up close
+                                 returns normally (no Python error), the BMC is left WITHOUT an open session and has
+                                 flagged nothing; nothing is sent when no session was granted (positions 0–2), Close
+                                 Session for the granted id when one was (position 3)
+  * `close_after_failed_open_bmc`  the same for the reference BMC with the fault plan `faultAt` (Spec.BmcSession.faulty)
+  * `close_after_failed_open_asShipped_counterexample`  the pinned tree (`closeGuard = false`): after a handshake that
+                                 failed before the session object was attached the clean-up close raises AttributeError
   * `close_from_live`            from ANY state in which the session is up (after the handshake, after requests, after a
                                  failed Set Session Privilege Level or request) close sends Close Session for the granted
                                  id with the next sequence number and the BMC closes
@@ -56,6 +75,7 @@
                                  monitor run over exactly the datagrams listed as sent
 -/
 import PyIpmi.Lemmas.SessionRun
+import PyIpmi.Lemmas.SessionFault
 import PyIpmi.Lemmas.SessionAuth
 import PyIpmi.Lemmas.SessionOrder
 import PyIpmi.Lemmas.SessionMonitor
@@ -221,6 +241,39 @@ theorem auth_choice_all_subsets :
 theorem auth_choice_asShipped_counterexample :
     chooseAuth prefAsShipped 0x12 = some 1 ∧ wanted 0x12 = some 4 ∧ 1 ∉ implemented := by decide
 
+/-- `get_max_auth_type()` returns `None` exactly when the BMC offers none of the five types -/
+theorem auth_choice_none (caps : Nat) :
+    chooseAuth authPreference (caps % 64) = none ↔
+      (offered caps 0 = false ∧ offered caps 1 = false ∧ offered caps 2 = false ∧ offered caps 4 = false ∧
+        offered caps 5 = false) := by
+  rw [chooseAuth_generated, implOrder_eq]
+  cases h0 : offered caps 0 <;> cases h1 : offered caps 1 <;> cases h2 : offered caps 2 <;>
+    cases h4 : offered caps 4 <;> cases h5 : offered caps 5 <;> simp [strongest, *]
+
+/-- The BMC offers NO authentication type.  Then (as intended: `noAuthRaises`) nothing is asked for:
+the handshake consists of the ping and the capabilities exchange, no Get Session Challenge is sent —
+there is no type it could name that the BMC offers —, the outcome is NotSupportedError, no session
+object is attached, and the BMC (in phase `capsSent`) has flagged nothing. -/
+theorem auth_none_offered_no_request {σ : Type} (md5 : List Nat → List Nat) (hmd5 : ∀ x, (md5 x).length = 16)
+    (b : BmcCfg) (cfg : Cfg) (conf : Conforming b cfg) (hpref : cfg.pref = authPreference) (hn : cfg.noAuthRaises = true)
+    (hnone : offered b.caps 0 = false ∧ offered b.caps 1 = false ∧ offered b.caps 2 = false ∧ offered b.caps 4 = false ∧
+      offered b.caps 5 = false)
+    (P : σ → List Nat → σ × Option (List Nat)) (π : σ → BmcState) (lostAt : σ → Bool)
+    (rel : Relay md5 b P π lostAt) (R : Nat) (hR : R ≤ cfg.maxRetries) (s0 : σ) (c0 : Client)
+    (hph : (π s0).phase = .start) (hl0 : lostAt s0 = false) (hw : ∀ d, Within P lostAt R 1 (P s0 d).1) :
+    ∃ ds1, (establish md5 P cfg s0 c0).sent = (.ping, pingD) :: tagAll .authCap ds1 ∧
+      (1 ≤ ds1.length ∧ ds1.length ≤ R + 1) ∧ (∀ d ∈ ds1, OutsideSession d ∧ Carries d 56 [0x0e, cfg.priv]) ∧
+      Kind.challenge ∉ kinds (establish md5 P cfg s0 c0).sent ∧
+      (establish md5 P cfg s0 c0).outcome = .notSupported ∧
+      (π (establish md5 P cfg s0 c0).peer).phase = .capsSent ∧
+      (π (establish md5 P cfg s0 c0).peer).bad = (π s0).bad ∧
+      (establish md5 P cfg s0 c0).client.attached = false := by
+  obtain ⟨ds1, h1, h2, h3, h4, h5, h6, h7⟩ := establish_noauth hmd5 conf rel hn R hR s0 c0 hl0 hph hw
+    (by rw [hpref]; exact (auth_choice_none b.caps).mpr hnone)
+  refine ⟨ds1, h1, h2, h3, ?_, h4, h5, h6, h7⟩
+  rw [h1]
+  simp [kinds, tagAll]
+
 /-! ### sequence numbers -/
 
 theorem seq_step (s : Nat) (h : s < 4294967296) :
@@ -360,9 +413,101 @@ theorem close_from_live {σ : Type} (md5 : List Nat → List Nat) (hmd5 : ∀ x,
 /-- a closed session (the state every successful life cycle ends in, see `close_names_sid`) is not
 closed again: a second `close_session()` puts nothing on the wire -/
 theorem close_again_sends_nothing {σ : Type} (md5 : List Nat → List Nat) (P : σ → List Nat → σ × Option (List Nat))
-    (cfg : Cfg) (p : σ) (c : Client) (h : c.s.activated = false) :
+    (cfg : Cfg) (p : σ) (c : Client) (hat : c.attached = true) (h : c.s.activated = false) :
     close md5 P cfg p c = ⟨p, c, [], .ok []⟩ := by
-  simp [close, h]
+  simp [close, hat, h]
+
+/-! ### closing after a failed open (`try: session.establish() … finally: session.close()`) -/
+
+/-- ANY peer: without a session object (no handshake yet, or the last one failed before the
+challenge was obtained), or with a session object that is not activated (Activate Session failed),
+`close_session()` puts nothing on the wire, returns normally and leaves the peer alone. -/
+theorem close_without_session_returns {σ : Type} (md5 : List Nat → List Nat) (P : σ → List Nat → σ × Option (List Nat))
+    (cfg : Cfg) (hg : cfg.closeGuard = true) (p : σ) (c : Client) (h : c.attached = false ∨ c.s.activated = false) :
+    close md5 P cfg p c = ⟨p, c, [], .ok []⟩ := by
+  rcases h with h | h
+  · simp [close, h, hg]
+  · cases hat : c.attached <;> simp [close, hat, h, hg]
+
+/-- ANY peer: the presence ping is not answered, or not with a pong.  The handshake fails there
+(one datagram), and the clean-up close sends nothing and returns. -/
+theorem close_after_failed_ping {σ : Type} (md5 : List Nat → List Nat) (P : σ → List Nat → σ × Option (List Nat))
+    (cfg : Cfg) (hg : cfg.closeGuard = true) (p0 : σ) (c0 : Client) (h : (ping P p0).2.2.isOk = false) :
+    (establish md5 P cfg p0 c0).outcome.isOk = false ∧
+    kinds (establish md5 P cfg p0 c0).sent = List.replicate (ping P p0).2.1.length .ping ∧
+    close md5 P cfg (establish md5 P cfg p0 c0).peer (establish md5 P cfg p0 c0).client =
+      ⟨(establish md5 P cfg p0 c0).peer, (establish md5 P cfg p0 c0).client, [], .ok []⟩ := by
+  obtain ⟨h1, _, h3, h4⟩ := establish_ping_failed md5 P cfg p0 c0 h
+  exact ⟨h4, by rw [h3, kinds_tagAll], close_without_session_returns md5 P cfg hg _ _ (Or.inl (by rw [h1]))⟩
+
+/-- Every fault position after the ping: request `j` of the handshake (0 = Get Channel
+Authentication Capabilities, 1 = Get Session Challenge, 2 = Activate Session, 3 = Set Session
+Privilege Level) fails — no answer for the whole retry budget (`max_retries + 1` transmissions) or
+an error completion code — after the `j` requests before it went through (≤ `max_retries` losses
+each); the peer is any relay of a conforming BMC, and after the fault it answers again.
+Then the handshake fails, and the caller's clean-up `close_session()`: returns normally (`.ok` — in
+particular no Python error), leaves NO open session on the BMC, the BMC has flagged nothing;
+it sends nothing at all when no session was granted (`j ≤ 2`), and Close Session for the granted
+session id when one was (`j = 3`), after which the BMC is `closed`. -/
+theorem close_after_failed_open {σ : Type} (md5 : List Nat → List Nat) (hmd5 : ∀ x, (md5 x).length = 16)
+    (b : BmcCfg) (cfg : Cfg) (su : Setup b cfg) (hg : cfg.closeGuard = true)
+    (P : σ → List Nat → σ × Option (List Nat)) (π : σ → BmcState) (lostAt : σ → Bool)
+    (rel : Relay md5 b P π lostAt) (j : Nat) (hj : j ≤ 3) (f : Fault) (s0 : σ) (c0 : Client)
+    (hph : (π s0).phase = .start) (hout : (π s0).outSeq < 4294967296) (hl0 : lostAt s0 = false)
+    (hw : ∀ d, FailsAt md5 b P π lostAt cfg.maxRetries f
+      (fun s => ∃ k, k ≤ cfg.maxRetries ∧ LossRun P lostAt (fun _ => True) k s) j (P s0 d).1)
+    (hcp : c0.s.pw = cfg.pw) (hcq : c0.s.seq < 4294967296) (hca : c0.s.activated = false) :
+    (establish md5 P cfg s0 c0).outcome.isOk = false ∧
+    (close md5 P cfg (establish md5 P cfg s0 c0).peer (establish md5 P cfg s0 c0).client).outcome = .ok [] ∧
+    (π (close md5 P cfg (establish md5 P cfg s0 c0).peer (establish md5 P cfg s0 c0).client).peer).phase.sessionOpen = false ∧
+    (π (close md5 P cfg (establish md5 P cfg s0 c0).peer (establish md5 P cfg s0 c0).client).peer).bad = (π s0).bad ∧
+    (j ≤ 2 → (close md5 P cfg (establish md5 P cfg s0 c0).peer (establish md5 P cfg s0 c0).client).sent = [] ∧
+      (close md5 P cfg (establish md5 P cfg s0 c0).peer (establish md5 P cfg s0 c0).client).peer =
+        (establish md5 P cfg s0 c0).peer) ∧
+    (j = 3 → ∃ ds, ds ≠ [] ∧
+      (close md5 P cfg (establish md5 P cfg s0 c0).peer (establish md5 P cfg s0 c0).client).sent = tagAll .close ds ∧
+      (∀ d ∈ ds, Carries d 60 (leBytes 4 b.sid)) ∧
+      (π (close md5 P cfg (establish md5 P cfg s0 c0).peer (establish md5 P cfg s0 c0).client).peer).phase = .closed) := by
+  obtain ⟨a, _, h2, h3, h4⟩ := chosen_of_common b.caps su.common
+  exact failed_open_close hmd5 su.conf rel hg j hj f s0 c0 a hl0 hph hout hw (by rw [su.pref]; exact h4) h2 h3 hcp hcq hca
+
+/-- The same for the reference BMC itself with a fault plan (`Spec.BmcSession.faulty`): the fault
+`f` hits the request that starts with datagram number `j + 1` (datagram 0 is the ping) — all
+`max_retries + 1` transmissions of it when `f` is silence, the first one when it is a refusal. -/
+theorem close_after_failed_open_bmc (md5 : List Nat → List Nat) (hmd5 : ∀ x, (md5 x).length = 16)
+    (b : BmcCfg) (cfg : Cfg) (su : Setup b cfg) (hg : cfg.closeGuard = true) (j : Nat) (hj : j ≤ 3) (f : Fault)
+    (hf : ∀ cc, f = .refuse cc → cc ≠ 0) (c0 : Client)
+    (hcp : c0.s.pw = cfg.pw) (hcq : c0.s.seq < 4294967296) (hca : c0.s.activated = false) :
+    let B := faulty md5 b (faultAt (j + 1) (f.span cfg.maxRetries) f)
+    let r := establish md5 B cfg (0, init) c0
+    let r3 := close md5 B cfg r.peer r.client
+    r.outcome.isOk = false ∧ r3.outcome = .ok [] ∧ r3.peer.2.phase.sessionOpen = false ∧ r3.peer.2.bad = none ∧
+    (j ≤ 2 → r3.sent = [] ∧ r3.peer = r.peer) ∧
+    (j = 3 → ∃ ds, ds ≠ [] ∧ r3.sent = tagAll .close ds ∧ (∀ d ∈ ds, Carries d 60 (leBytes 4 b.sid)) ∧
+      r3.peer.2.phase = .closed) := by
+  intro B r r3
+  have hp0 : faultAt (j + 1) (f.span cfg.maxRetries) f 0 = none := by simp [faultAt]
+  exact close_after_failed_open md5 hmd5 b cfg su hg B Prod.snd _ (relay_faulty _) j hj f (0, init) c0 rfl (by decide)
+    (by simp [hp0])
+    (fun d => by
+      have e : (B (0, init) d).1 = (0 + 1, (peer md5 b init d).1) := by simp only [B, faulty, hp0]
+      rw [e]
+      exact failsAt_faulty cfg.maxRetries f hf (j + 1) j (0 + 1) _ (by omega))
+    hcp hcq hca
+
+/-- The pinned tree (`closeGuard = false`): `close_session()` on an interface without a session
+object raises AttributeError — so after a handshake whose ping was not answered the caller's
+clean-up close ends in a Python error that masks the original one.  (Same after a failure of Get
+Channel Authentication Capabilities or Get Session Challenge: no session object either.) -/
+theorem close_after_failed_open_asShipped_counterexample {σ : Type} (md5 : List Nat → List Nat)
+    (P : σ → List Nat → σ × Option (List Nat)) (cfg : Cfg) (hg : cfg.closeGuard = false) (p0 : σ) (c0 : Client) :
+    (∀ p c, c.attached = false → (close md5 P cfg p c).outcome = .pyError "AttributeError") ∧
+    ((ping P p0).2.2.isOk = false →
+      (close md5 P cfg (establish md5 P cfg p0 c0).peer (establish md5 P cfg p0 c0).client).outcome =
+        .pyError "AttributeError") := by
+  have h1 : ∀ p c, c.attached = false → (close md5 P cfg p c).outcome = .pyError "AttributeError" := by
+    intro p c h; simp [close, h, hg]
+  exact ⟨h1, fun h => h1 _ _ (by rw [(establish_ping_failed md5 P cfg p0 c0 h).1])⟩
 
 theorem retransmissions_take_next_seq (md5 : List Nat → List Nat) (hmd5 : ∀ x, (md5 x).length = 16)
     (b : BmcCfg) (cfg : Cfg) (su : Setup b cfg) (c0 : Client) (hcp : c0.s.pw = cfg.pw) (hcq : c0.s.seq < 4294967296)
@@ -419,6 +564,41 @@ example : BoundedLoss (fun i => i == 5 || i == 6 || i == 9) 2 := by
     · by_cases h9 : i = 9
       · exact ⟨1, by omega, by subst h9; decide⟩
       · exact ⟨0, by omega, by simp [h, h6, h9]⟩
+
+/-- a BMC that offers no authentication type at all -/
+def noAuthBmc : BmcCfg := { demoBmc with caps := 0 }
+
+example : Conforming noAuthBmc demoCfg :=
+  ⟨rfl, rfl, rfl, by decide, by decide, by decide, by decide, by decide, by decide, by decide, by decide, by decide, rfl⟩
+
+/-- The pinned tree (`noAuthRaises = false`) against a BMC that offers nothing: Get Session Challenge
+goes out, asking for type "none", and the reference BMC flags it (`auth-type-not-offered`); the
+intended variant stops after the capabilities exchange with NotSupportedError and an unbothered BMC. -/
+theorem auth_none_offered_asShipped_counterexample :
+    kinds (establish toyDigest (peer toyDigest noAuthBmc) { demoCfg with noAuthRaises := false } init
+      (Client.fresh demoCfg.pw)).sent = [.ping, .authCap, .challenge, .challenge, .challenge] ∧
+    (establish toyDigest (peer toyDigest noAuthBmc) { demoCfg with noAuthRaises := false } init
+      (Client.fresh demoCfg.pw)).peer.bad = some .authNotOffered ∧
+    kinds (establish toyDigest (peer toyDigest noAuthBmc) demoCfg init (Client.fresh demoCfg.pw)).sent = [.ping, .authCap] ∧
+    (establish toyDigest (peer toyDigest noAuthBmc) demoCfg init (Client.fresh demoCfg.pw)).outcome = .notSupported ∧
+    (establish toyDigest (peer toyDigest noAuthBmc) demoCfg init (Client.fresh demoCfg.pw)).peer.bad = none := by
+  decide
+
+/-- the fault hypotheses of `close_after_failed_open` are satisfiable: the reference BMC with a fault plan -/
+example : FailsAt toyDigest demoBmc (faulty toyDigest demoBmc (faultAt 3 (Fault.span 2 .silence) .silence)) Prod.snd
+    (fun s => (faultAt 3 (Fault.span 2 .silence) .silence s.1).isSome) 2 .silence
+    (fun s => ∃ k, k ≤ 2 ∧ LossRun (faulty toyDigest demoBmc (faultAt 3 (Fault.span 2 .silence) .silence))
+      (fun s => (faultAt 3 (Fault.span 2 .silence) .silence s.1).isSome) (fun _ => True) k s) 2 (1, init) :=
+  failsAt_faulty 2 .silence (fun _ h => by cases h) 3 2 1 init rfl
+
+/-- Set Session Privilege Level refused with D4h after the BMC has granted the session: the clean-up
+close sends one Close Session and the BMC ends closed (evaluated) -/
+example :
+    let B := faulty toyDigest demoBmc (faultAt 4 1 (.refuse 0xd4))
+    let r := establish toyDigest B demoCfg (0, init) (Client.fresh demoCfg.pw)
+    r.outcome = .ccError 0xd4 ∧ kinds (close toyDigest B demoCfg r.peer r.client).sent = [.close] ∧
+      (close toyDigest B demoCfg r.peer r.client).peer.2.phase = .closed := by
+  decide
 
 /-- the model client against the reference BMC, evaluated: 2 requests, wrap-around crossed -/
 example : (lifecycle toyDigest (peer toyDigest demoBmc) demoCfg 2 init (Client.fresh demoCfg.pw)).outcome = .ok [] := by
